@@ -84,30 +84,29 @@ func vpC13Check(b []byte, t *TransportLayerCC, count int) {
 	vpAssert("C13.delta-count", len(t.RecvDeltas) == nd && nd <= 64)
 	if inside && len(t.RecvDeltas) == nd && nd <= 64 {
 		dpos := pos
-		ok := true
 		fits := true
 		for i := 0; i < 64; i++ {
-			if i < nd {
+			if i < nd && fits {
 				d := t.RecvDeltas[i]
+				// one assertion per delta keeps each query small
 				if types[i] == 1 {
 					if dpos+1 > n {
 						fits = false
-					} else if d == nil || d.Type != 1 || d.Delta != 250*int64(b[dpos]) {
-						ok = false
+					} else {
+						vpAssert("C13.deltas-match-statuses", d != nil && d.Type == 1 && d.Delta == 250*int64(b[dpos]))
 					}
 					dpos++
 				} else {
 					if dpos+2 > n {
 						fits = false
-					} else if d == nil || d.Type != 2 || d.Delta != 250*int64(int16(uint16(b[dpos])<<8|uint16(b[dpos+1]))) {
-						ok = false
+					} else {
+						vpAssert("C13.deltas-match-statuses", d != nil && d.Type == 2 && d.Delta == 250*int64(int16(uint16(b[dpos])<<8|uint16(b[dpos+1]))))
 					}
 					dpos += 2
 				}
 			}
 		}
 		vpAssert("C13.deltas-inside-length", fits)
-		vpAssert("C13.deltas-match-statuses", ok)
 	}
 	vpAssert("C13.header-fields", t.PacketStatusCount == uint16(count) && t.BaseSequenceNumber == uint16(b[12])<<8|uint16(b[13]) &&
 		t.ReferenceTime == uint32(b[16])<<16|uint32(b[17])<<8|uint32(b[18]) && t.FbPktCount == b[19])
@@ -291,22 +290,67 @@ func VpC13_Chunkings(a []int) {
 	vpReach("end")
 }
 
-// VpC13_Vec: one status vector chunk whose 14 symbol bits are all symbolic
-// (a[0] = 0: one-bit symbols, 1: two-bit symbols), status count a[1], followed
-// by a[2] delta octets; header fields and delta octets symbolic.
-func VpC13_Vec(a []int) {
-	w := vpU16()&0x3fff | 0x8000
-	if a[0] == 1 {
-		w |= 0x4000
-	}
-	count := a[1]
-	hdr := vpBytes(20)
-	deltas := vpBytes(a[2])
-	b := vpC13Packet([]uint16{w}, count, hdr, deltas)
+// VpC13_Typed: chunk kinds are fixed per case (a[2:]: 0 = run-length chunk
+// with symbolic symbol and run length, 1 = one-bit vector, 2 = two-bit vector,
+// all 14 payload bits symbolic, 100+e = run-length chunk with symbolic symbol
+// whose clipped length is e: run-length field == e, or any value >= e when e
+// is all that remains of the status count); a[0] is the status count, assumed to be
+// covered by the chunks (so the decoder does not read delta octets as further
+// chunks; that situation is the subject of the deficit skeletons); a[1] delta
+// octets follow; header fields and delta octets are symbolic.
+func VpC13_Typed(a []int) {
+	b, count := vpC13TypedPacket(a)
 	var t TransportLayerCC
 	if t.Unmarshal(b) == nil {
 		vpReach("accepted")
 		vpC13Check(b, &t, count)
 	}
 	vpReach("end")
+}
+
+func vpC13TypedPacket(a []int) ([]byte, int) {
+	count, nd := a[0], a[1]
+	kinds := a[2:]
+	chunks := make([]uint16, len(kinds))
+	covered := 0
+	for i, k := range kinds {
+		w := vpU16()
+		switch k {
+		case 0:
+			w &= 0x7fff
+			run := int(w & 0x1fff)
+			if run > count-covered {
+				run = count - covered
+			}
+			if run > 0 {
+				covered += run
+			}
+		case 1:
+			w = w&0x3fff | 0x8000
+			covered += 14
+		case 2:
+			w |= 0xc000
+			covered += 7
+		default:
+			e := k - 100
+			w &= 0x7fff
+			if e > count-covered {
+				e = count - covered
+			}
+			if e < 0 {
+				e = 0
+			}
+			if e == count-covered {
+				vpAssume(int(w&0x1fff) >= e)
+			} else {
+				vpAssume(int(w&0x1fff) == e)
+			}
+			covered += e
+		}
+		chunks[i] = w
+	}
+	vpAssume(covered >= count)
+	hdr := vpBytes(20)
+	deltas := vpBytes(nd)
+	return vpC13Packet(chunks, count, hdr, deltas), count
 }
